@@ -1,31 +1,41 @@
 import Rosmar.Driver
 open Rosmar Rosmar.Driver
 
-partial def loop (h : IO.FS.Stream) (out : IO.FS.Stream) (s : State) : IO Unit := do
+inductive Mode where
+  | kv (s : State)
+  | reg (r : Rosmar.Registry.Reg)
+
+partial def loop (h : IO.FS.Stream) (out : IO.FS.Stream) (m : Mode) : IO Unit := do
   let line ← h.getLine
   if line.isEmpty then return ()
   let line := (line.dropEndWhile (fun c => c = '\n' || c = '\r')).toString
   if line.isEmpty || line.startsWith "#" then
-    loop h out s
+    loop h out m
   else
     let l := parseLine line
     if l.op = "begin" then
       out.putStrLn "begin"
-      loop h out initState
+      if l.str "kind" = "reg" then loop h out (.reg {}) else loop h out (.kv initState)
     else if l.op = "end" then
       out.putStrLn "end"
-      loop h out initState
+      loop h out (.kv initState)
     else
-      match toOp l with
-      | none =>
-        out.putStrLn "r=model-unknown-op"
-        loop h out s
-      | some op =>
-        let (s', resp) := step s op
-        out.putStrLn (fmtResp l resp)
-        loop h out s'
+      match m with
+      | .reg r =>
+        let (r', s) := regLine r l
+        out.putStrLn s
+        loop h out (.reg r')
+      | .kv s =>
+        match toOp l with
+        | none =>
+          out.putStrLn "r=model-unknown-op"
+          loop h out m
+        | some op =>
+          let (s', resp) := step s op
+          out.putStrLn (fmtResp l resp)
+          loop h out (.kv s')
 
 def main : IO Unit := do
   let stdin ← IO.getStdin
   let stdout ← IO.getStdout
-  loop stdin stdout initState
+  loop stdin stdout (.kv initState)
